@@ -51,7 +51,7 @@ func Unpack8(blob []byte) (uint8, int, error) {
 	if blob[1] != 0x01 {
 		return 0, 0, errors.New("varint: encoded integer greater than 255 (uint8)")
 	}
-	return blob[0], 1, nil
+	return blob[0], 2, nil
 }
 
 // Unpack16 unpacks a VarInt into a uint16. It returns the extracted int, how many bytes were used and an error.
